@@ -218,24 +218,20 @@ def registry_route(chk, P, normal, ref_forms, extra_forms):
                expect=want, key="C06.O5|%s|form-use" % name)
     # the registry's own registration loop: names 'as.'+attribute name, each wrapping that attribute
     reg = P.cls("atsim.potentials.config._potential_form_registry", "Potential_Form_Registry")
-    rinst = InstV(reg)
-    table = W.run_method(I, rinst, "_register_standard", [])
-    rsite = reg.site_of("_register_standard")
-    if not isinstance(table, DictV):
-        raise AnalysisError("_register_standard did not return a dict")
-    keys = sorted(k.v for k, _ in table.items.values())
+    RJ, robj, keys = F.standard_registry(P)
+    rsite = reg.site_of("__init__")
     want_keys = sorted("as." + n for n in ref_forms)
     missing = [k for k in want_keys if k not in keys]
     odd = [k for k in keys if not k.startswith("as.")]
     chk.ob("C06.O5", "every documented form is registered as 'as.'+name, and nothing is registered under another prefix",
            not missing and not odd, site=rsite, found=keys, expect=want_keys, key="C06.O5|registry|names")
     for name in ref_forms + extra_forms:
-        ent = table.items.get(Const("as." + name).key())
-        if ent is None or name not in normal:
+        if "as." + name not in keys or name not in normal:
             continue
         inst, params, want = normal[name]
-        f = I.call(ent[1], F.sym_args(params[1:]), {})
-        v = I.num(I.call(f, [Num(ep.sym("r"))], {}))
+        ent = RJ.getitem(robj, Const("as." + name))
+        f = RJ.call(ent, F.sym_args(params[1:]), {})
+        v = RJ.num(RJ.call(f, [Num(ep.sym("r"))], {}))
         ok, why = ep.equal(v, want)
         chk.ob("C06.O5", "registry entry 'as.%s' wraps potentialfunctions.%s" % (name, name), ok, site=rsite, found=why or v, expect=want,
                key="C06.O5|registry|%s" % name)
